@@ -16,10 +16,10 @@ import z3
 
 from pyvc.vals import Val, NONE, I, B, Z, ref, fresh, cls_of, STRINGS, PENDING, FINISHED, CANCELLED, CANCELLED_AND_NOTIFIED
 from pyvc.state import SPECIAL, ArrIV
-from pyvc.verify import Unit, sym_inst, sym_val, user_calls
+from pyvc.verify import Unit, sym_inst, sym_val, user_calls, new_inst
 from pyvc.symexec import Raise, LoopSpec
 from pyvc import static as S
-from .base import make_cfg, FIELD_TYPES, INST
+from .base import make_cfg, FIELD_TYPES, INST, local
 
 ArrIB = z3.ArraySort(I, B)
 SPECIAL["$zn"] = z3.ArraySort(I, I)
@@ -82,7 +82,7 @@ def _cfg():
     def on_count_write(engine, st, fr, o, v):
         # ghost: position `index` becomes filled with the value just stored in fs[index]
         sid = Val.id(o.t)
-        idx = engine.num(st, st.envs[fr.eid]["index"])
+        idx = engine.num(st, local(engine, st, fr, "$param#1", "index"))
         lid = Val.id(st.get("fs", sid))
         n = st.get("$zn", sid)
         filled = st.get("$zfilled", sid)
@@ -395,8 +395,7 @@ def _cfg_zinit():
 
 
 def _setup_zinit(engine, st):
-    oid = st.alloc("Zipper")
-    st.assume(cls_of(z3.IntVal(oid)) == engine.tag("Zipper"))
+    oid = engine.concrete_id(new_inst(engine, st, "Zipper").t)        # fresh, private, every field UNSET
     me = Z(ref(oid), INST("Zipper"))
     fs = sym_val(engine, st, ("list", "future"), "fs")      # f_zip(*fs): the tuple of arguments, any length
     engine.cfg.owned_list = Val.id(fs.t)
